@@ -7,70 +7,70 @@
 // sqlite-unordered, each history on a fresh store of each kind; "multi" =
 // the multi-handle streams (multi / lifecycle / shared) over pisces.Tables.
 //
-//  API (pisces.KV)                       exercised by / shapes
-//  Add AddClass SetClass Remove Get      every stream; hit + miss + key too long; after every other writer
-//  GetBytes Has Emplace Replace            (typing: all ordered pairs of 13 writers, then 20 readers/writers)
-//  AppendBytes SetBytes Set                nil / empty / text / NUL+0xff+invalid UTF-8 bytes; 1 B .. 3 MiB (sizes, huge)
-//  Mutate                                ok | error | cancel | incr | changes its argument then fails | ... then
-//                                          cancels | leaves an unmarshalable value | panics; on a missing key, on
-//                                          an undecodable value; the store used again after each (callbacks + random)
-//  Count Clear                           every stream; handle reused after Clear
-//  Walk WalkClass WalkPartial            Do: succeeds | ErrCancel | user error | panic, at the first entry with a
-//  WalkPartialClass                        given value; windows 0,1,len-1,len,len+1,2^62,2^63-1 (window) and
-//                                          >= 2^63 (overflow, models only); undecodable value midway (classvalue)
-//  Create CreateMissing Destroy          multi: per handle and through Tables; every method before Create and
-//                                          after Destroy (must report an error), Create on an existing table,
-//                                          CreateMissing on an existing table (must keep it), Destroy+Create
-//  NewMemKV NewOrderedMemKV              4 stores
-//  NewSqlite3KV NewOrderedSqlite3KV      4 stores (one table, dropped and created per history)
-//  Tables: OpenSqlite3Tables NewMemTables  multi: 0..4 handles, 1..4 tables (names with a common prefix) in one
-//  NewKV NewOrderedKV Create              file; Create/Destroy stopping at the first failure; no table at all
-//  CreateMissing Destroy DB               ("no table"); an ordered and a hashing handle on the same table, the
-//                                          ordered one using the other's hashed key (shared)
-//  NewPsqlKV NewOrderedPsqlKV OpenPsqlTables  cannot run here (translator only: statement table equality)
-//  Sqlite3CreateKV Sqlite3DropExist      set-up of the 4 stores
-//  sqlx: OpenSqlite3, DB.X/Q1/Q, Tx.X/Q1,   through every call above; the failing paths (X, Q1+Scan, Q returning
-//  Begin, Row.Scan, Error                  an error) through every method on a table that does not exist (lifecycle)
+//	API (pisces.KV)                       exercised by / shapes
+//	Add AddClass SetClass Remove Get      every stream; hit + miss + key too long; after every other writer
+//	GetBytes Has Emplace Replace            (typing: all ordered pairs of 13 writers, then 20 readers/writers)
+//	AppendBytes SetBytes Set                nil / empty / text / NUL+0xff+invalid UTF-8 bytes; 1 B .. 3 MiB (sizes, huge)
+//	Mutate                                ok | error | cancel | incr | changes its argument then fails | ... then
+//	                                        cancels | leaves an unmarshalable value | panics; on a missing key, on
+//	                                        an undecodable value; the store used again after each (callbacks + random)
+//	Count Clear                           every stream; handle reused after Clear
+//	Walk WalkClass WalkPartial            Do: succeeds | ErrCancel | user error | panic, at the first entry with a
+//	WalkPartialClass                        given value; windows 0,1,len-1,len,len+1,2^62,2^63-1 (window) and
+//	                                        >= 2^63 (overflow, models only); undecodable value midway (classvalue)
+//	Create CreateMissing Destroy          multi: per handle and through Tables; every method before Create and
+//	                                        after Destroy (must report an error), Create on an existing table,
+//	                                        CreateMissing on an existing table (must keep it), Destroy+Create
+//	NewMemKV NewOrderedMemKV              4 stores
+//	NewSqlite3KV NewOrderedSqlite3KV      4 stores (one table, dropped and created per history)
+//	Tables: OpenSqlite3Tables NewMemTables  multi: 0..4 handles, 1..4 tables (names with a common prefix) in one
+//	NewKV NewOrderedKV Create              file; Create/Destroy stopping at the first failure; no table at all
+//	CreateMissing Destroy DB               ("no table"); an ordered and a hashing handle on the same table, the
+//	                                        ordered one using the other's hashed key (shared)
+//	NewPsqlKV NewOrderedPsqlKV OpenPsqlTables  cannot run here (translator only: statement table equality)
+//	Sqlite3CreateKV Sqlite3DropExist      set-up of the 4 stores
+//	sqlx: OpenSqlite3, DB.X/Q1/Q, Tx.X/Q1,   through every call above; the failing paths (X, Q1+Scan, Q returning
+//	Begin, Row.Scan, Error                  an error) through every method on a table that does not exist (lifecycle)
 //
-//  user-supplied                         legal shapes -> used
-//  Mutate f(v) error                     nil / error / ErrCancel, each with v changed or not; v left
-//                                          unmarshalable; panic -> all eight (Op.M)
-//  Iter.Make                             fresh pointer per entry (only shape used; a shared pointer is the
-//                                          caller's business: json.Unmarshal semantics)
-//  Iter.Do                               nil / ErrCancel / error / panic at entry i (Op.Stop, Op.StopErr)
-//  re-entrant calls from f / Do          not exercised: self-deadlock on the memory backend by sync.RWMutex's
-//                                          rules (Lock inside RLock / Lock), SQLITE_BUSY on sqlite; cross-goroutine
-//                                          versions are the forced schedules of harness/cmd/c06
-//  []byte arguments and results          the caller's memory: every argument is a sub-slice (spare capacity
-//                                          behind it) of one scratch page that is overwritten as soon as the call
-//                                          returns; every slice handed out (GetBytes, Get, the value shown to f
-//                                          and Do) is overwritten once recorded; the page must stay untouched
-//                                          between calls ("caller-memory-written")
-//  *KVPartial                            one object reused for every partial walk of the run, must come back
-//                                          unchanged ("partial-modified")
+//	user-supplied                         legal shapes -> used
+//	Mutate f(v) error                     nil / error / ErrCancel, each with v changed or not; v left
+//	                                        unmarshalable; panic -> all eight (Op.M)
+//	Iter.Make                             fresh pointer per entry (only shape used; a shared pointer is the
+//	                                        caller's business: json.Unmarshal semantics)
+//	Iter.Do                               nil / ErrCancel / error / panic at entry i (Op.Stop, Op.StopErr)
+//	re-entrant calls from f / Do          not exercised: self-deadlock on the memory backend by sync.RWMutex's
+//	                                        rules (Lock inside RLock / Lock), SQLITE_BUSY on sqlite; cross-goroutine
+//	                                        versions are the forced schedules of harness/cmd/c06
+//	[]byte arguments and results          the caller's memory: every argument is a sub-slice (spare capacity
+//	                                        behind it) of one scratch page that is overwritten as soon as the call
+//	                                        returns; every slice handed out (GetBytes, Get, the value shown to f
+//	                                        and Do) is overwritten once recorded; the page must stay untouched
+//	                                        between calls ("caller-memory-written")
+//	*KVPartial                            one object reused for every partial walk of the run, must come back
+//	                                        unchanged ("partial-modified")
 //
-//  state                                 lifetime -> exercised
-//  memKV.m, memEntry.buf                 per handle; growth across 64 B (bytes.Buffer's first allocation) and
-//                                          its doublings by SetBytes / AppendBytes / incr carry (sizes)
-//  SQL table (k unique, c, v)            on disk per (file, table name); shared by all handles of that name;
-//                                          value typed BLOB by a bound []byte, TEXT by the || of an append (typing)
-//  sqlx.DB pool                          one per file, reused by all handles and histories of the run; a
-//                                          Mutate that fails / cancels / panics must leave no transaction behind
-//                                          (later calls would hang or fail: per-call time limit, "hang")
-//  Tables.tables                         registration order = order of Create / Destroy (lifecycle)
+//	state                                 lifetime -> exercised
+//	memKV.m, memEntry.buf                 per handle; growth across 64 B (bytes.Buffer's first allocation) and
+//	                                        its doublings by SetBytes / AppendBytes / incr carry (sizes)
+//	SQL table (k unique, c, v)            on disk per (file, table name); shared by all handles of that name;
+//	                                        value typed BLOB by a bound []byte, TEXT by the || of an append (typing)
+//	sqlx.DB pool                          one per file, reused by all handles and histories of the run; a
+//	                                        Mutate that fails / cancels / panics must leave no transaction behind
+//	                                        (later calls would hang or fail: per-call time limit, "hang")
+//	Tables.tables                         registration order = order of Create / Destroy (lifecycle)
 //
-//  thresholds in the code                cases on both sides
-//  MaxKeyLen 255 (bytes, not runes)      254/255/256/258/300 bytes, 2-,3-,4-byte runes (classvalue, corpus)
-//  MaxKVClassLen 255 (unused constant)   classes of 254/255/256/257/300/4096/65536 bytes (classvalue, sizes)
-//  sqlResError n==0 / n!=1               every update/delete on a present and on a missing key
-//  memEntry.bytes len==0 -> nil          empty values through SetBytes/AppendBytes(nil | empty)
-//  len(ts.tables)==0                     table set without tables
-//  uint64 window arithmetic              window, overflow
-//  bytes.Buffer 64, SQLite page 4096,    values of n-1, n, n+1 bytes for n in {64, 256, 4096, 65536}, 1 MiB +-1,
-//  64 KiB, 1 MiB                           3 MiB (sizes, huge)
+//	thresholds in the code                cases on both sides
+//	MaxKeyLen 255 (bytes, not runes)      254/255/256/258/300 bytes, 2-,3-,4-byte runes (classvalue, corpus)
+//	MaxKVClassLen 255 (unused constant)   classes of 254/255/256/257/300/4096/65536 bytes (classvalue, sizes)
+//	sqlResError n==0 / n!=1               every update/delete on a present and on a missing key
+//	memEntry.bytes len==0 -> nil          empty values through SetBytes/AppendBytes(nil | empty)
+//	len(ts.tables)==0                     table set without tables
+//	uint64 window arithmetic              window, overflow
+//	bytes.Buffer 64, SQLite page 4096,    values of n-1, n, n+1 bytes for n in {64, 256, 4096, 65536}, 1 MiB +-1,
+//	64 KiB, 1 MiB                           3 MiB (sizes, huge)
 //
-//  Not exercised: PostgreSQL; concurrent use (harness/cmd/c06); keys with NUL or invalid UTF-8 (outside the
-//  statement); re-entrant calls from callbacks (see above).
+//	Not exercised: PostgreSQL; concurrent use (harness/cmd/c06); keys with NUL or invalid UTF-8 (outside the
+//	statement); re-entrant calls from callbacks (see above).
 package main
 
 import (
@@ -133,8 +133,8 @@ type Case struct {
 	Handles []Handle          `json:"handles,omitempty"` // multi-handle histories (Obs keys "m", "s")
 	Multi   bool              `json:"multi,omitempty"`
 	Ops     []Op              `json:"ops"`
-	HK     map[string]string `json:"hk"` // hex key -> hex of the hashed key (unordered stores)
-	Obs    map[string][]Res  `json:"obs"`
+	HK      map[string]string `json:"hk"` // hex key -> hex of the hashed key (unordered stores)
+	Obs     map[string][]Res  `json:"obs"`
 	// Min is the delta-debugged history when memory and sqlite disagree.
 	Min    []Op             `json:"min,omitempty"`
 	MinObs map[string][]Res `json:"min_obs,omitempty"`
@@ -935,7 +935,6 @@ func classValueCorpus() [][]Op {
 	}
 	return out
 }
-
 
 // typingCorpus: every ordered pair of 13 writers on one key followed by every
 // reader and every other writer. (SQLite types the stored value by how it was
